@@ -47,17 +47,6 @@ Definition model_eqb (S : schema) (V : validator) (m : mode) (j : json) (o : obs
   | _, _ => false end.
 
 (* ---- the property on the observation ---- *)
-Definition wf_val (v : val) : bool :=
-  match v with VBad | VWrong => false | VTL l => forallb (fun o => match o with Some _ => true | None => false end) l | _ => true end.
-Definition wf_doc (S : schema) (j : json) : bool := forallb (fun f => wf_val (jval (fname f) j)) (sfields S).
-
-Definition is_custom (r : lrule) : bool := match r with LCustom _ => true | _ => false end.
-Definition is_never_s (r : srule) : bool := match r with SNever => true | _ => false end.
-Definition parent_of (r : lrule) : option string := match r with LIfParent p _ _ => Some p | _ => None end.
-Definition is_boolk (k : kind) : bool := match k with KBool => true | _ => false end.
-
-Definition canon_in (v : val) : val := match v with VTL l => VL (keep_some l) | _ => v end.
-
 (* the value of member f in the observed configuration *)
 Definition obs_member (f : field) (saved direct : json) : val :=
   match jget (fname f) direct with
@@ -66,15 +55,6 @@ Definition obs_member (f : field) (saved direct : json) : val :=
             | Some VNone | None => (match fsave f with SOmitIfDefault d => d | _ => zero_of (fkind f) end)
             | Some s => s end
   end.
-
-(* a setting given in a well-formed document: a member the section saves, holding a boolean or a non-zero value *)
-Definition is_setting (f : field) (j : json) : bool :=
-  let v := jval (fname f) j in
-  negb (is_never_s (fsave f)) && negb (is_custom (fload f))
-  && (match fkind f with KGroup => false | _ => true end)
-  && (match v with VNone => false | _ => true end)
-  && (is_boolk (fkind f) || negb (is_zero (canon_in v)))
-  && (match parent_of (fload f) with Some p => jhas p j | None => true end).
 
 Definition dropped (S : schema) (j : json) (saved direct : json) : list field :=
   filter (fun f => is_setting f j && negb (veq (fkind f) (canon_in (jval (fname f) j)) (obs_member f saved direct))) (sfields S).
